@@ -1,5 +1,6 @@
 import NemoVerif.Drive.Common
 import NemoVerif.Models.CoreIndex
+import NemoVerif.Drive.CoreVMJson
 
 namespace NemoVerif.Drive.C09
 open Lean NemoVerif NemoVerif.Drive NemoVerif.CoreIndex
@@ -74,6 +75,7 @@ def handle (op : String) (j : Json) : Except String Json := do
       s := s'
       outs := outs.push (stateToJson s bad)
     pure (Json.arr outs)
+  | "run" => CoreVMJson.runProgram j
   | _ => throw s!"unknown op C09.{op}"
 
 end NemoVerif.Drive.C09
